@@ -119,3 +119,42 @@ Theorem C01_honest_residual_zero : forall (K : Fld), FldOk K -> forall (M : Mod 
     (pc_y ch) (pc_z ch) (pc_es ch) (pc_e ch) = v0 M.
 Proof. exact honest_residual_zero. Qed.
 Print Assumptions C01_honest_residual_zero.
+
+(** THE PROPERTY AT THE TOP OF THE EXECUTED MODEL: the statement / proof pair the code-shaped prover makes
+    for a valid witness passes EVERY guard of [verify_chunk] (Model/VerifyTop.v: statement consistency,
+    extension degree of d1, promise range, transcript phase with its identity checks, non-zero challenges,
+    round count, padding), in both verifying modes, and the final multiscalar product the model hands to
+    the back end is the identity — so the model's verdict is Ok with one result, [mask_of mode mb].
+    [enc]/[dec] are an abstract point encoding with dec (enc p) = p; [toN]/[ofN] likewise for scalars;
+    "no absorbed point is the identity" is a premise (it is an error in the code too). *)
+From BP Require Import Model.VerifyTop Model.Codec Proofs.BatchP Proofs.TopP Proofs.HonestTopP.
+Local Close Scope N_scope.
+Theorem C01_honest_chunk_accepted : forall (K : Fld), FldOk K -> forall (M : Mod K), ModOk K M ->
+  forall (ofN : N -> K) (toN : K -> N), (forall x, ofN (toN x) = x) ->
+  forall (enc : M -> N) (dec : N -> M), (forall p, dec (enc p) = p) ->
+  forall (g : gens K M) bits cap (values : list N) (promises : list (option N)) (blindings : list (list K)) (nn : nonces K) (ch : pchals K)
+         seeded nonce mode (w : K) a,
+  let m := length values in
+  let Nn := m * bits in
+  let T := length (g_Gb g) in
+  let mb := honest_member K M toN enc g bits cap values promises blindings nn ch seeded nonce in
+  let p := prove_core K M bits cap g values promises blindings nn ch in
+  1 <= bits -> m = 2 ^ a -> m <= cap ->
+  length (g_G g) = bits * cap -> length (g_Hv g) = bits * cap ->
+  Nn = 2 ^ length (pc_es ch) ->
+  pc_y ch <> f0 K -> fsub K (pc_y ch) (f1 K) <> f0 K -> pc_z ch <> f0 K -> pc_e ch <> f0 K -> Forall (fun e => e <> f0 K) (pc_es ch) ->
+  length promises = m -> length blindings = m -> Forall (fun r => length r = T) blindings ->
+  wf_nonces K T (length (pc_es ch)) nn ->
+  Forall (fun vp => match snd vp with Some mv => (mv <= fst vp)%N | None => True end) (combine values promises) ->
+  Forall (fun vp => (offset_value (fst vp) (snd vp) < 2 ^ N.of_nat bits)%N) (combine values promises) ->
+  1 <= T <= 6 -> length (pc_es ch) < 64 -> (2 * N.of_nat bits * N.of_nat cap < 2 ^ 64)%N ->
+  forallb (promise_fits bits) promises = true ->
+  enc (g_H g) <> 0%N -> Forall (fun q => enc q <> 0%N) (g_Gb g) ->
+  enc (pp_A p) <> 0%N -> enc (pp_A1 p) <> 0%N -> enc (pp_B p) <> 0%N ->
+  Forall (fun q => enc q <> 0%N) (pp_L p) -> Forall (fun q => enc q <> 0%N) (pp_R p) ->
+  mode <> RecoverOnly ->
+  exists sc,
+    verify_chunk K ofN mode [mb] [w] true = (Ok [mask_of K ofN mode mb], Some sc) /\
+    vadd M (msm (fst sc) (interleaveM K M (g_G g) (g_Hv g))) (msm (snd sc) (dyn_of K M (pts_of K M dec mb) ++ g_Gb g ++ [g_H g])) = v0 M.
+Proof. intros K Kok M Mok ofN toN OT enc dec DE g. exact (honest_chunk_accepted K Kok M Mok ofN toN OT enc dec DE g). Qed.
+Print Assumptions C01_honest_chunk_accepted.
